@@ -243,7 +243,7 @@ impl ZmtpEngine {
           .map(|d| d.as_millis().min(u16::MAX as u128) as u16)
           .unwrap_or(0);
         let ping_msg = ZmtpCommand::create_ping(ttl_ms, &[]);
-        match encode_msg(ping_msg) {
+        match self.encode_data_phase_command(ping_msg) {
           Ok(data) => {
             out.net_actions.push(NetAction::Send {
               data,
@@ -743,7 +743,7 @@ impl ZmtpEngine {
         match ZmtpCommand::parse(&msg) {
           Some(ZmtpCommand::Ping(ctx)) => {
             let pong = ZmtpCommand::create_pong(&ctx);
-            match encode_msg(pong) {
+            match self.encode_data_phase_command(pong) {
               Ok(data) => out.net_actions.push(NetAction::Send {
                 data,
                 zc_eligible: false,
@@ -840,6 +840,15 @@ impl ZmtpEngine {
     if let Some(f) = self.pending_framer.take() {
       self.framer = f;
     }
+  }
+
+  /// Encodes a data-phase command (PING/PONG) through the active framer, so that on CURVE and
+  /// NOISE_XX connections it travels inside the encrypted record layer like everything else the
+  /// peer's framer reads. For NULL/PLAIN the bytes are those of the plain codec.
+  fn encode_data_phase_command(&mut self, msg: crate::Msg) -> Result<Bytes, ZmqError> {
+    let mut fb = FrameBatch::new();
+    fb.push(msg);
+    self.framer.write_msg_multipart(fb)
   }
 
   fn emit_local_ready(&self, out: &mut EngineOutput) {
